@@ -85,8 +85,41 @@ func readCfg(path string) (string, *config.AmmoConfig) {
 
 var providerType = reflect.TypeOf((*core.Provider)(nil)).Elem()
 
-// ammoOf builds the registered provider for the file and returns the dumps of the ammo of one pass
-func ammoOf(kind, path string) ([]string, bool) {
+// digestOf: name@min_waiting_time_ms[step:sleep_ms,...] of one scenario ammo (names in hex)
+func digestOf(a any) string {
+	v := reflect.ValueOf(a)
+	for v.Kind() == reflect.Ptr || v.Kind() == reflect.Interface {
+		v = v.Elem()
+	}
+	ms := func(f reflect.Value) string { return strconv.FormatInt(f.Int()/int64(time.Millisecond), 10) }
+	steps := v.FieldByName("Requests")
+	if !steps.IsValid() {
+		steps = v.FieldByName("Calls")
+	}
+	parts := make([]string, steps.Len())
+	for i := range parts {
+		st := steps.Index(i)
+		parts[i] = hexs(st.FieldByName("Name").String()) + ":" + ms(st.FieldByName("Sleep"))
+	}
+	return hexs(v.FieldByName("Name").String()) + "@" + ms(v.FieldByName("MinWaitingTime")) + "[" + strings.Join(parts, ",") + "]"
+}
+
+// rle: consecutive equal entries are written once with a repeat count
+func rle(xs []string) string {
+	var out []string
+	for i := 0; i < len(xs); {
+		j := i
+		for j < len(xs) && xs[j] == xs[i] {
+			j++
+		}
+		out = append(out, xs[i]+"x"+strconv.Itoa(j-i))
+		i = j
+	}
+	return strings.Join(out, ";")
+}
+
+// ammoOf builds the registered provider for the file and returns the dumps and the digests of the ammo of one pass
+func ammoOf(kind, path string) ([]string, []string, bool) {
 	p, err := plugin.New(providerType, kind, func(conf interface{}) error {
 		c, ok := conf.(*scenario.ProviderConfig)
 		if !ok {
@@ -97,20 +130,24 @@ func ammoOf(kind, path string) ([]string, bool) {
 		return nil
 	})
 	if err != nil {
-		return nil, false
+		if debug {
+			fmt.Fprintf(os.Stderr, "---- provider %s: %v\n", path, err)
+		}
+		return nil, nil, false
 	}
 	prov := p.(core.Provider)
 	ctx, cancel := context.WithTimeout(context.Background(), 10*time.Second)
 	defer cancel()
 	done := make(chan error, 1)
 	go func() { done <- prov.Run(ctx, core.ProviderDeps{Log: zap.NewNop(), PoolID: "c16"}) }()
-	var out []string
+	var out, dig []string
 	for {
 		a, ok := prov.Acquire()
 		if !ok {
 			break
 		}
 		out = append(out, dumpValue(a, "ID"))
+		dig = append(dig, digestOf(a))
 		prov.Release(a)
 		if len(out) > 100000 {
 			cancel()
@@ -118,7 +155,7 @@ func ammoOf(kind, path string) ([]string, bool) {
 		}
 	}
 	<-done
-	return out, true
+	return out, dig, true
 }
 
 func runCase(input string) string {
@@ -135,7 +172,21 @@ func runCase(input string) string {
 	case 2:
 		fancy = 60
 	}
-	hclText, _ := printHCL(d, rand.New(rand.NewSource(sx)), fancy)
+	var hclText string
+	if m["hx"] == "1" {
+		// corpus line that spells the HCL side explicitly: the file is printed from the lb/hb syntax tree
+		hclText, err = printHCLFromAST(m["lb"], m["hb"])
+		if err != nil {
+			return "BADINPUT " + err.Error()
+		}
+	} else {
+		hf := printHCL(d, rand.New(rand.NewSource(sx)), fancy)
+		if want, ok := m["hb"]; ok && (want != hf.hb || m["lb"] != hf.lb) {
+			// the input carries the syntax tree of the HCL spelling (the Lean model evaluates it): it must be the one printed
+			return "BADINPUT the lb/hb tokens are not the spelling that sx selects"
+		}
+		hclText = hf.text
+	}
 	yamlText, _ := printYAML(d, rand.New(rand.NewSource(sx+1)), fancy)
 	dir := caseDir(input)
 	hp, yp := dir+"/ammo.hcl", dir+"/ammo.yaml"
@@ -152,6 +203,8 @@ func runCase(input string) string {
 	ytok := yd
 	if yd == hd {
 		ytok = "="
+	} else if hcfg != nil && ycfg != nil {
+		ytok = yd + " D=" + firstDiff(hd, yd)
 	}
 	atok := "-"
 	if hcfg != nil && ycfg != nil {
@@ -159,8 +212,8 @@ func runCase(input string) string {
 		if len(hcfg.Requests) == 0 && len(hcfg.Calls) > 0 {
 			kind = "grpc/scenario"
 		}
-		ha, hok := ammoOf(kind, hp)
-		ya, yok := ammoOf(kind, yp)
+		ha, hdig, hok := ammoOf(kind, hp)
+		ya, _, yok := ammoOf(kind, yp)
 		switch {
 		case !hok && !yok:
 			atok = "ERR"
@@ -169,10 +222,10 @@ func runCase(input string) string {
 		case len(ha) != len(ya):
 			atok = fmt.Sprintf("DIFF:count:%d/%d", len(ha), len(ya))
 		default:
-			atok = strconv.Itoa(len(ha))
+			atok = strconv.Itoa(len(ha)) + ":" + rle(hdig)
 			for i := range ha {
 				if ha[i] != ya[i] {
-					atok = fmt.Sprintf("DIFF:ammo%d:%s/%s", i, drv.Trunc(ha[i], 300), drv.Trunc(ya[i], 300))
+					atok = fmt.Sprintf("DIFF:ammo%d:%s", i, firstDiff(ha[i], ya[i]))
 					break
 				}
 			}
@@ -198,15 +251,25 @@ func class(input, obs string) string {
 		return ""
 	}
 	sx, _ := strconv.ParseInt(m["sx"], 10, 64)
-	if sx%3 != 0 {
-		hclText, fns := printHCL(d, rand.New(rand.NewSource(sx)), int(sx%3)*30)
-		_ = hclText
-		if len(fns) > 0 {
+	if m["hx"] == "1" {
+		parts = append(parts, "explicit-hcl")
+	} else if sx%3 != 0 {
+		hf := printHCL(d, rand.New(rand.NewSource(sx)), int(sx%3)*30)
+		if len(hf.fns) > 0 {
 			parts = append(parts, "locals+functions")
 		}
+		if hf.redef > 0 {
+			parts = append(parts, "local-redefined")
+		}
 	}
-	if m["mal"] == "1" {
+	switch m["mal"] {
+	case "1":
 		parts = append(parts, "malformed")
+	case "2":
+		parts = append(parts, "odd-steps")
+	}
+	if strings.Contains(obs, " A=ERR") {
+		parts = append(parts, "ammo-refused")
 	}
 	if strings.HasPrefix(obs, "H=ERR") {
 		parts = append(parts, "rejected")
@@ -623,12 +686,91 @@ func (g *gen) mutate(d *Node) {
 	}
 }
 
-func line(sx int64, mal bool, d *Node) string {
-	m := 0
-	if mal {
-		m = 1
+// oddSteps: perturb the scenarios / step references in ways the ammo decoders (scenario/http, scenario/grpc
+// decodeAmmo, config.ParseShootName, config.SpreadNames) must treat alike for both files; the Lean ammo model predicts
+// the outcome (refusal or the exact ammo sequence)
+func (g *gen) oddSteps(d *Node) {
+	scs := d.get("scenario")
+	if scs == nil || len(scs.L) == 0 {
+		return
 	}
-	return fmt.Sprintf("sx=%d mal=%d d=%s", sx, m, encodeTree(d))
+	steps := d.get("request")
+	if steps == nil || len(steps.L) == 0 {
+		steps = d.get("call")
+	}
+	if steps == nil || len(steps.L) == 0 {
+		return
+	}
+	stepName := func() string { return steps.L[g.r.Intn(len(steps.L))].get("name").S }
+	set := func(n *Node, k string, v *Node) {
+		for i := range n.M {
+			if n.M[i].K == k {
+				n.M[i].V = v
+				return
+			}
+		}
+		n.M = append(n.M, KV{k, v})
+	}
+	sc := scs.L[g.r.Intn(len(scs.L))]
+	reqs := sc.get("requests")
+	var cur []string
+	if reqs != nil {
+		for _, x := range reqs.L {
+			cur = append(cur, x.S)
+		}
+	}
+	s := stepName()
+	switch g.r.Intn(12) {
+	case 0:
+		odd := []string{s + "(", s + ")", s + "(x)", s + "(2,x)", s + "(1)(2)", s + "(2))", "(2)", s + "(2.5)", s + "(1_0)", s + "(0x2)", s + "( 2"}
+		cur = append(cur, g.pick(odd))
+	case 1:
+		ok := []string{s + "()", s + "(,5)", s + "(+2)", s + "(-1)", s + "(0)", s + "(2,)", s + "(2,-5)", s + "(2, 7, 9)", "\t" + s + " ( 3 , 4 ) ",
+			s + "(02)", s + " (1)", "sleep", "sleep()", "sleep(-5)", "sleep(7,9)", " sleep (3)", "sleep(+3)"}
+		cur = append(cur, g.pick(ok))
+	case 2:
+		cur = append([]string{g.pick([]string{"sleep(10)", "sleep", " sleep(1) "})}, cur...)
+	case 3:
+		cur = append(cur, g.pick([]string{"no_such_step", " " + s, s + " ", "sleep ", "Sleep(3)", strings.ToUpper(s)}))
+	case 4:
+		set(sc, "weight", nInt(int64(g.pick2([]int{-1, -100}))))
+	case 5:
+		// two scenarios with the same name and different weights: SpreadNames keeps the last count for both
+		cp := nMap(append([]KV{}, sc.M...))
+		set(cp, "weight", nInt(int64(g.pick2([]int{1, 2, 3, 5, 7}))))
+		scs.L = append(scs.L, cp)
+	case 6:
+		// two steps with the same name: the later definition wins
+		dup := steps.L[g.r.Intn(len(steps.L))]
+		cp := nMap(append([]KV{}, dup.M...))
+		set(cp, "tag", nStr("second definition"))
+		steps.L = append(steps.L, cp)
+	case 7:
+		cur = nil
+	case 8:
+		for _, x := range scs.L {
+			set(x, "weight", nInt(int64(g.pick2([]int{6, 9, 15, 21, 1000000007, 4, 0}))))
+		}
+	case 9:
+		cur = append(cur, s+"(3)", "sleep(5)", "sleep(7)", s+"(0, 9)", "sleep(11)")
+	case 10:
+		cur = []string{s + "(0)", "sleep(5)"}
+	default:
+		cur = append(cur, g.pick([]string{s + "(99999999999999999999)", s + "(1, 99999999999999999999)", s + "(-99999999999999999999)"}))
+	}
+	set(sc, "requests", nStrs(cur))
+}
+
+func line(sx int64, mal int, d *Node) string {
+	fancy := 0
+	switch sx % 3 {
+	case 1:
+		fancy = 30
+	case 2:
+		fancy = 60
+	}
+	hf := printHCL(d, rand.New(rand.NewSource(sx)), fancy)
+	return fmt.Sprintf("sx=%d mal=%d d=%s lb=%s hb=%s", sx, mal, encodeTree(d), hf.lb, hf.hb)
 }
 
 func generate(r *rand.Rand, tier string) []string {
@@ -640,9 +782,14 @@ func generate(r *rand.Rand, tier string) []string {
 	var out []string
 	for i := 0; i < n; i++ {
 		d := g.describe()
-		mal := g.chance(8)
-		if mal {
+		mal := 0
+		switch x := g.r.Intn(100); {
+		case x < 8:
+			mal = 1
 			g.mutate(d)
+		case x < 20:
+			mal = 2
+			g.oddSteps(d)
 		}
 		out = append(out, line(r.Int63n(1<<40), mal, d))
 	}
@@ -663,7 +810,9 @@ func main() {
 			"values, YAML-1.1-special words, unicode incl. line separators/BOM, whitespace/newline shapes, HCL template characters) are printed by the " +
 			"harness as HCL (2/3 of the cases through locals blocks, interpolation and the registered collection functions) and as YAML (quoted, plain, " +
 			"single-quoted, literal-block scalars, flow collections, locals+anchors+merge keys), parsed by the real ReadAmmoConfig and the registered " +
-			"providers, and the canonical dumps compared; 8% are malformed (unknown plugin type, key of another plugin, bad assert op, unknown step) " +
-			"and must be refused by both front-ends; a case is non-trivial when it has at least one request or call",
+			"providers, and the canonical dumps compared; the HCL spelling redefines locals in earlier / later blocks (the last definition before the " +
+			"use must win) and its syntax tree is evaluated by the Lean model; 8% are malformed (unknown plugin type, key of another plugin, bad " +
+			"assert op, unknown step) and must be refused by both front-ends; 12% have odd step references / weights (brackets, signs, sleeps, " +
+			"duplicates, negative weight) whose outcome the Lean ammo model predicts; a case is non-trivial when it has at least one request or call",
 	})
 }
